@@ -18,30 +18,18 @@ BASELINE_OFF = ("cd /repo && GOFLAGS=-mod=mod GOPROXY=off GOSUMDB=off GOTOOLCHAI
 
 PROPS = {}
 
-PROPS["C29"] = dict(
-    title="Variable byte integers are canonical and bounded",
-    design_ref="DESIGN.md section 8, C29",
-    technique="Coq proof (induction-free 4-level unrolling + lia) that the model of encodeLength/DecodeLength equals "
-              "the MQTT 1.5.5 specification for all values and all byte strings; model tied to the Go code by "
-              "differential execution (extracted model vs packets.DecodeLength/encodeLength)",
-    level_text="Theorems over all N <= 268435455 and all byte lists: round trip, minimal length, decoder = standard's "
-               "decoder, rejection above the maximum and beyond four bytes.  The Go functions are 40 lines; the model "
-               "mirrors them statement by statement (uint32 wrap included) and is compared with them on an exhaustive "
-               "boundary alphabet and random values on every run.",
-    level_note="Trusted: Coq kernel, extraction (ExtrOcamlBasic), the OCaml driver, the Go harness; modelled not verified: "
-               "bytes.Buffer / io.ByteReader (a list of bytes), Go uint32 arithmetic (written into the model as mod 2^32).",
-    engines=[dict(hx="vbi")],
-    theorems=["C29_roundtrip", "C29_minimal", "C29_decode_is_spec", "C29_reject_big", "C29_reject_long"],
-    model_files="coq/Codec/Vbi.v",
-    rule="decode: every byte string of length <= 6 (thorough 7) over the boundary alphabet {00,01,7f,80,81,ff} "
-         "(exhaustive), encoder outputs followed by junk, random strings with forced continuation bits; encode: "
-         "boundaries +-3 and random values of random bit width (thorough: every value below 2^21+1024).  "
-         "non-trivial = multi-byte input / value > 127; distinct = distinct case lines",
-    exhaustive=False,
-    modelled="packets/codec.go encodeLength, DecodeLength (entire functions)",
-    assumptions=["bytes read from the io.ByteReader are the bytes of the list (bytes.Reader trusted)",
-                 "encodeLength is only specified for non-negative lengths"],
-)
+def _load():
+    import glob
+    import importlib.util
+    for path in sorted(glob.glob(os.path.join(VERIF, "lib", "props", "C*.py"))):
+        pid = os.path.basename(path)[:-3]
+        spec = importlib.util.spec_from_file_location("prop_" + pid, path)
+        mod = importlib.util.module_from_spec(spec)
+        spec.loader.exec_module(mod)
+        PROPS[pid] = mod.PROP
+
+
+_load()
 
 
 def manifest():
@@ -95,7 +83,22 @@ NOT_CLAIMED = {}
 HOOK_COMMITS = ["6385440"]
 
 
+def merge_findings():
+    """findings.d/*.json (one file per property, hand-written) -> KNOWN_FINDINGS.json.  Runs only on
+    ./check --gen-manifest, never during a check."""
+    import glob
+    findings, fixed = [], []
+    for path in sorted(glob.glob(os.path.join(VERIF, "findings.d", "*.json"))):
+        d = json.load(open(path))
+        findings += d.get("findings", [])
+        fixed += d.get("fixed", [])
+    with open(os.path.join(VERIF, "KNOWN_FINDINGS.json"), "w") as f:
+        json.dump({"findings": findings, "fixed": fixed}, f, indent=1)
+        f.write("\n")
+
+
 def write_manifest():
+    merge_findings()
     m = manifest()
     with open(os.path.join(VERIF, "MANIFEST.json"), "w") as f:
         json.dump(m, f, indent=1)
